@@ -1,0 +1,72 @@
+//go:build verif
+
+package client
+
+// Verification contracts (C01, client side): typestate ORDER RULES over the verified operations of immuClient.
+// Decided at the typestate level (govc lite units: control flow, registers, ghost event flags; no heap contents).
+//
+// Every verified operation may store a new trusted state (c.StateService.SetState) and may report success only after
+//   - the inclusion proof of the entry verified (store.VerifyInclusion returned true),
+//   - the dual proof between the previously trusted state and the new one verified (c.verifyDualProof returned a nil
+//     error), unless there is no previously trusted state (the comparison `state.TxId > 0` written in the source was
+//     false on that path),
+//   - the signature of the new state was checked whenever a server signing key is configured.
+// An event counts only on the paths where its error result is nil / its boolean verdict is true.
+
+//@ func (*immuClient).verifyDualProof
+//@   order dual_verified_before_ok: store.VerifyDualProof before return ok
+//@   order linear_advance_filled_before_verify: schema.FillMissingLinearAdvanceProof before store.VerifyDualProof
+
+//@ func (*immuClient).verifiedGet
+//@   order inclusion_before_setstate: store.VerifyInclusion before c.StateService.SetState
+//@   order dual_before_setstate: c.verifyDualProof | else(state.TxId > 0) before c.StateService.SetState
+//@   order signature_before_setstate: newState.CheckSignature | else(c.serverSigningPubKey != nil) before c.StateService.SetState
+//@   order setstate_before_ok: c.StateService.SetState before return ok
+//@   order locked: c.StateService.CacheLock before c.StateService.GetState
+
+//@ func (*immuClient).VerifiedSet
+//@   order inclusion_before_setstate: store.VerifyInclusion before c.StateService.SetState
+//@   order dual_before_setstate: c.verifyDualProof | else(state.TxId > 0) before c.StateService.SetState
+//@   order signature_before_setstate: newState.CheckSignature | else(c.serverSigningPubKey != nil) before c.StateService.SetState
+//@   order setstate_before_ok: c.StateService.SetState before return ok
+//@   order locked: c.StateService.CacheLock before c.StateService.GetState
+
+//@ func (*immuClient).VerifiedTxByID
+//@   order dual_before_setstate: c.verifyDualProof | else(state.TxId > 0) before c.StateService.SetState
+//@   order signature_before_setstate: newState.CheckSignature | else(c.serverSigningPubKey != nil) before c.StateService.SetState
+//@   order setstate_before_ok: c.StateService.SetState before return ok
+//@   order locked: c.StateService.CacheLock before c.StateService.GetState
+
+//@ func (*immuClient).VerifiedSetReferenceAt
+//@   order inclusion_before_setstate: store.VerifyInclusion before c.StateService.SetState
+//@   order dual_before_setstate: c.verifyDualProof | else(state.TxId > 0) before c.StateService.SetState
+//@   order signature_before_setstate: newState.CheckSignature | else(c.serverSigningPubKey != nil) before c.StateService.SetState
+//@   order setstate_before_ok: c.StateService.SetState before return ok
+//@   order locked: c.StateService.CacheLock before c.StateService.GetState
+
+//@ func (*immuClient).VerifiedZAddAt
+//@   order inclusion_before_setstate: store.VerifyInclusion before c.StateService.SetState
+//@   order dual_before_setstate: c.verifyDualProof | else(state.TxId > 0) before c.StateService.SetState
+//@   order signature_before_setstate: newState.CheckSignature | else(c.serverSigningPubKey != nil) before c.StateService.SetState
+//@   order setstate_before_ok: c.StateService.SetState before return ok
+//@   order locked: c.StateService.CacheLock before c.StateService.GetState
+
+//@ func (*immuClient).VerifyRow
+//@   order inclusion_before_setstate: store.VerifyInclusion before c.StateService.SetState
+//@   order dual_before_setstate: c.verifyDualProof | else(state.TxId > 0) before c.StateService.SetState
+//@   order signature_before_setstate: newState.CheckSignature | else(c.serverSigningPubKey != nil) before c.StateService.SetState
+//@   order setstate_before_ok: c.StateService.SetState before return ok
+//@   order locked: c.StateService.CacheLock before c.StateService.GetState
+
+//@ func (*immuClient)._streamVerifiedSet
+//@   order dual_before_setstate: c.verifyDualProof | else(state.TxId > 0) before c.StateService.SetState
+//@   order signature_before_setstate: newState.CheckSignature | else(c.serverSigningPubKey != nil) before c.StateService.SetState
+//@   order setstate_before_ok: c.StateService.SetState before return ok
+//@   order locked: c.StateService.CacheLock before c.StateService.GetState
+
+//@ func (*immuClient)._streamVerifiedGet
+//@   order inclusion_before_setstate: store.VerifyInclusion before c.StateService.SetState
+//@   order dual_before_setstate: c.verifyDualProof | else(state.TxId > 0) before c.StateService.SetState
+//@   order signature_before_setstate: newState.CheckSignature | else(c.serverSigningPubKey != nil) before c.StateService.SetState
+//@   order setstate_before_ok: c.StateService.SetState before return ok
+//@   order locked: c.StateService.CacheLock before c.StateService.GetState
